@@ -451,15 +451,39 @@ func transTVFTypeWithSet(visited SSet, transTV func(TypeVar) FType, ftp FType) F
 		uname := utName(ut)
 		return frt.IfElse(SSetHasKey(visited, uname), (func() FType {
 			vtargs := slice.Map(recurse, ut.Targs)
-			return New_FType_FUnion(UnionType{Name: ut.Name, Targs: vtargs})
+			vut := UnionType{Name: ut.Name, Targs: vtargs}
+			vkey := ("inst:" + uniToKey(vut))
+			return frt.IfElse(hasUniInfo(vut), (func() FType {
+				return New_FType_FUnion(vut)
+			}), (func() FType {
+				return frt.IfElse(SSetHasKey(visited, vkey), (func() FType {
+					return New_FType_FUnion(vut)
+				}), (func() FType {
+					SSetPut(visited, vkey)
+					vcases := utCases(ut)
+					vtps := frt.Pipe(slice.Map(func(_v1 NameTypePair) FType {
+						return _v1.Ftype
+					}, vcases), (func(_r0 []FType) []FType { return slice.Map(recurse, _r0) }))
+					vnames := slice.Map(func(_v2 NameTypePair) string {
+						return _v2.Name
+					}, vcases)
+					nvcases := frt.Pipe(slice.Zip(vnames, vtps), (func(_r0 []frt.Tuple2[string, FType]) []NameTypePair {
+						return slice.Map(func(tp frt.Tuple2[string, FType]) NameTypePair {
+							return newNTPair(frt.Fst(tp), frt.Snd(tp))
+						}, _r0)
+					}))
+					updateUniInfo(vut, UnionTypeInfo{Cases: nvcases})
+					return New_FType_FUnion(vut)
+				}))
+			}))
 		}), (func() FType {
 			SSetPut(visited, uname)
 			cases := utCases(ut)
-			ntps := frt.Pipe(slice.Map(func(_v1 NameTypePair) FType {
-				return _v1.Ftype
+			ntps := frt.Pipe(slice.Map(func(_v3 NameTypePair) FType {
+				return _v3.Ftype
 			}, cases), (func(_r0 []FType) []FType { return slice.Map(recurse, _r0) }))
-			names := slice.Map(func(_v2 NameTypePair) string {
-				return _v2.Name
+			names := slice.Map(func(_v4 NameTypePair) string {
+				return _v4.Name
 			}, cases)
 			ncases := frt.Pipe(slice.Zip(names, ntps), (func(_r0 []frt.Tuple2[string, FType]) []NameTypePair {
 				return slice.Map(func(tp frt.Tuple2[string, FType]) NameTypePair {
